@@ -29,7 +29,8 @@ type rEl struct {
 type rProg struct {
 	Read string `json:"read"`
 	W    string `json:"w"`
-	Ret  string `json:"ret"`
+	Ret  string `json:"ret"` // ok | err | stanzaerr (the handler returns a stanza.Error value)
+	Mut  string `json:"mut"` // what the handler does to the start element it was handed: none | type | name | id | from | clear
 }
 
 type rW struct {
@@ -58,6 +59,47 @@ type rVec struct {
 }
 
 var errHandler = errors.New("verif: handler failure")
+
+// handlerCond is the condition of the stanza error a handler program returns with ret = stanzaerr.
+const handlerCond = "not-acceptable"
+
+// mutate is the "mut" part of a handler program: handlers get the start element by pointer and may recycle it.
+func mutate(start *xml.StartElement, how string, a *addrs) {
+	if start == nil {
+		return
+	}
+	set := func(name, val string) {
+		for i := range start.Attr {
+			if start.Attr[i].Name.Local == name {
+				start.Attr[i].Value = val
+				return
+			}
+		}
+		start.Attr = append(start.Attr, xml.Attr{Name: xml.Name{Local: name}, Value: val})
+	}
+	switch how {
+	case "type":
+		set("type", "result")
+	case "name":
+		start.Name.Local = "message"
+	case "id":
+		set("id", "mutated-id")
+	case "from":
+		cur := ""
+		for _, at := range start.Attr {
+			if at.Name.Local == "from" {
+				cur = at.Value
+			}
+		}
+		if cur == a.Domain {
+			set("from", a.Peer)
+		} else {
+			set("from", a.Domain)
+		}
+	case "clear":
+		start.Attr = nil
+	}
+}
 
 func (a *addrs) of(sym string) string {
 	switch sym {
@@ -253,7 +295,7 @@ type run7 struct {
 	invoked []string
 }
 
-func (r *run7) program(t xmlstream.TokenReadEncoder, sentinel bool) error {
+func (r *run7) program(t xmlstream.TokenReadEncoder, sentinel bool, start *xml.StartElement) error {
 	if sentinel {
 		r.invoked = append(r.invoked, "sentinel")
 		execRead(t, "all")
@@ -265,8 +307,12 @@ func (r *run7) program(t xmlstream.TokenReadEncoder, sentinel bool) error {
 	if err := execWrites(t, r.v.Writes, r.a, explicit, r.via); err != nil {
 		return fmt.Errorf("driver: write failed: %w", err)
 	}
-	if r.v.P.Ret == "err" {
+	mutate(start, r.v.P.Mut, r.a)
+	switch r.v.P.Ret {
+	case "err":
 		return errHandler
+	case "stanzaerr":
+		return stanza.Error{Type: stanza.Modify, Condition: stanza.Condition(handlerCond)}
 	}
 	return nil
 }
@@ -282,7 +328,7 @@ func isSentinelStart(start *xml.StartElement) bool {
 
 func (r *run7) handler() xmpp.Handler {
 	plain := xmpp.HandlerFunc(func(t xmlstream.TokenReadEncoder, start *xml.StartElement) error {
-		return r.program(t, isSentinelStart(start))
+		return r.program(t, isSentinelStart(start), start)
 	})
 	switch r.v.Mode {
 	case "plain":
@@ -293,21 +339,21 @@ func (r *run7) handler() xmpp.Handler {
 	e := r.v.E
 	opts := []mux.Option{
 		mux.IQFunc(stanza.GetIQ, xml.Name{Space: nsSentinel, Local: "s"}, func(iq stanza.IQ, t xmlstream.TokenReadEncoder, start *xml.StartElement) error {
-			return r.program(t, true)
+			return r.program(t, true, nil)
 		}),
 	}
 	switch e.Kind {
 	case "iq":
 		opts = append(opts, mux.IQFunc(stanza.IQType(e.Type), payloadName(e, stanzaNSOf(r.v.ENS)), func(iq stanza.IQ, t xmlstream.TokenReadEncoder, start *xml.StartElement) error {
-			return r.program(t, false)
+			return r.program(t, false, start)
 		}))
 	case "msg":
 		opts = append(opts, mux.MessageFunc(stanza.MessageType(e.Type), xml.Name{}, func(m stanza.Message, t xmlstream.TokenReadEncoder) error {
-			return r.program(t, false)
+			return r.program(t, false, nil)
 		}))
 	case "pres":
 		opts = append(opts, mux.PresenceFunc(stanza.PresenceType(e.Type), xml.Name{}, func(p stanza.Presence, t xmlstream.TokenReadEncoder) error {
-			return r.program(t, false)
+			return r.program(t, false, nil)
 		}))
 	case "other":
 		opts = append(opts, mux.Handle(xml.Name{Space: nsOther, Local: "other"}, plain))
@@ -344,6 +390,15 @@ func expectOut(alt []json.RawMessage, a *addrs) ([]topOut, error) {
 				id = ""
 			}
 			outs = append(outs, topOut{Local: "iq", NS: "def", Type: "error", ID: id, To: a.of(to), SU: true, Cond: "service-unavailable"})
+		case "se":
+			// the stanza error the handler returned, sent by the session as the request's error reply
+			var id, to string
+			json.Unmarshal(parts[1], &id)
+			json.Unmarshal(parts[2], &to)
+			if id == "none" {
+				id = ""
+			}
+			outs = append(outs, topOut{Local: "iq", NS: "def", Type: "error", ID: id, To: a.of(to), SU: true, Cond: handlerCond})
 		case "serr":
 			outs = append(outs, topOut{Local: "error", NS: "stream"})
 		default:
@@ -368,6 +423,12 @@ func outsMatch(exp, obs []topOut) bool {
 		if e.SU {
 			// the default reply carries the request's id; to a request without id the
 			// session gives whatever id it likes (it completes missing ids, C05)
+			if e.Cond == handlerCond {
+				if !(o.Cond == handlerCond && o.Local == "iq" && o.NS == "def" && o.Type == "error" && (o.ID == e.ID || e.ID == "") && o.To == e.To) {
+					return false
+				}
+				continue
+			}
 			if !(o.SU && o.Local == "iq" && o.NS == "def" && o.Type == "error" && (o.ID == e.ID || e.ID == "") && o.To == e.To) {
 				return false
 			}
